@@ -88,6 +88,8 @@ def get(libs, t, name):
     if name == 'requires_grad':
         I.event('requires-grad-read')
         return bool(t.requires_grad)
+    if name == 'is_leaf':
+        return True
     if name == 'is_cuda':
         return False
     if name == 'T':
